@@ -84,12 +84,13 @@ PROPS = {
     "C02": dict(
         level="proof",
         bounded=_ops("C02"),
-        lemmas=["lenGLs", "L-stop", "Zmono", "Zshrink", "L2a"],
+        lemmas=["lenGLs", "L-stop", "Zmono", "Zshrink", "L2a", "L2b"],
         trusted=TB,
-        assumed=["L2b: 'some layer i has a verifying and no falsifying world of rank <= i' iff rank(AB) < rank(A not B) (unfolding of kz(w) <= i iff w in R_i; arithmetic of minima)", LSTOP],
+        assumed=["reading of `<` between minima: rank(AB) < rank(A not B) iff some threshold j has a verifying world of rank <= j and no falsifying world of rank <= j (minimum of an empty set infinite)", LSTOP],
         explanation="Engine P proves SystemZ._preprocess_belief_base (partition = greedy partition), _inference and the recursion "
-        "_rec_inference (result == EZ, the layer-wise descent) from the real source; lemma L2a (EZ = exists separating layer) is proved "
-        "by induction in z3 on every run. Engine B compares with the oracle's kz-based definition.",
+        "_rec_inference (result == EZ, the layer-wise descent) from the real source; lemma L2a (EZ = exists separating layer) and lemma L2b "
+        "(the separating layer is a comparison of Z-ranks of worlds: w lies in the worlds of rank <= j iff the rank descent on {w} returns "
+        "<= j) are proved by induction in z3 on every run. Engine B compares with the oracle's kz-based definition.",
     ),
     "C03": dict(
         level="other",
